@@ -100,7 +100,8 @@ func (g *scopeGen) bindForm() string {
 	if g.r.Chance(1, 2) {
 		return ""
 	}
-	return []string{"for", "except", "import", "defname", "classname", "tuple", "star", "with"}[g.r.Intn(8)]
+	// "aug": an augmented assignment as (possibly the only) binding of the name
+	return []string{"for", "except", "import", "defname", "classname", "tuple", "star", "with", "aug", "aug"}[g.r.Intn(10)]
 }
 
 func (g *scopeGen) pick() string { return g.names[g.r.Intn(len(g.names))] }
@@ -343,6 +344,8 @@ func renderStmts(b *strings.Builder, sc *Scope, stmts []*Stmt, ind int) {
 				w("%s, *_r = (\"%s\", 1, 2)", st.N, st.Tag)
 			case "with":
 				w("with _CM(\"%s\") as %s:\n    pass", st.Tag, st.N)
+			case "aug":
+				w("try:\n    %s += \"+%s\"\n    log(\"%s\", %s)\nexcept Exception as _e:\n    log(\"%s\", exc_name(_e))", st.N, st.Tag, st.Tag, st.N, st.Tag)
 			default:
 				w("%s = \"%s\"", st.N, st.Tag)
 			}
